@@ -151,6 +151,8 @@ impl Method for PhoneticMethod {
             if modified > self.modified {
                 self.suggestion.user_autocorrect =
                     serde_json::from_slice(&read(&mut file)).unwrap();
+                // The cached suggestions contain the old auto correct entries.
+                self.suggestion.cache.clear();
                 self.modified = modified;
             }
         }
